@@ -350,6 +350,33 @@ mod verif_driver_reduce {
         println!("VERIF-CASES fn=reduce n={n}");
     }
 
+    // ---- C07: reading the datum of an input that resolved to SEVERAL UTxOs gives the same value every time the same set is
+    // applied (a set has no first element: which UTxO is read must not depend on how the set happens to iterate).
+    // BOUND: two UTxOs with different datums, the set rebuilt and reduced 40 times.
+    #[test]
+    fn datum_of_a_multi_utxo_input_is_determined() {
+        use crate::model::assets::CanonicalAssets;
+        use crate::model::core::{Utxo, UtxoRef};
+        let mut n = 0;
+        let build = || -> Expression {
+            let mut h = HashSet::new();
+            for (k, d) in [(1u8, 100i128), (2, 200), (3, 300)] {
+                h.insert(Utxo { r#ref: UtxoRef { txid: vec![k; 32], index: 0 }, address: vec![0x61; 29], datum: Some(num(d)), script: None, assets: CanonicalAssets::from_naked_amount(5) });
+            }
+            Expression::EvalCoerce(Box::new(Coerce::IntoDatum(Expression::UtxoSet(h))))
+        };
+        let first = quiet(|| build().reduce().map(|e| format!("{e:?}")).map_err(|e| format!("{e:?}")));
+        for round in 0..40 {
+            n += 1;
+            let again = quiet(|| build().reduce().map(|e| format!("{e:?}")).map_err(|e| format!("{e:?}")));
+            if again != first {
+                witness("c07_reduce/reduce#determined", "reduce", format!("the datum of a set of three UTxOs with datums 100, 200, 300, the same set rebuilt (round {round}) class=datum-of-a-multi-utxo-set"), format!("{again:?} after {first:?}").chars().take(160).collect(), "the same value every time");
+                break;
+            }
+        }
+        println!("VERIF-CASES fn=reduce n={n}");
+    }
+
     // ---- C07 / C06: `reduce` reaches every position (a foldable operation is folded wherever it sits), and a template
     // without parameters, queries, fee markers and pending operations IS constant (so that it can be compiled)
     #[test]
